@@ -493,7 +493,8 @@ impl<'w> Judge<'w> {
                 self.stats.bump("info.first_run_only_growth");
             }
             if !unique {
-                v.push(viol(case, "input_retained", format!("{}/{}", leg, level_key(&case.level)), "the input buffer is still shared after the error was dropped".into()));
+                let site = format!("{}/{}/{}", leg, level_key(&case.level), decode_path(self.w, &case.level, &chain));
+                v.push(viol(case, "input_retained", site, "the input buffer is still shared after the error was dropped".into()));
             }
         }
         v
